@@ -38,9 +38,9 @@ func (muxHist) Runs(tier string) int64 {
 
 func (muxHist) Meta() core.EngineMeta {
 	return core.EngineMeta{
-		Rule:       "Three quarters of the runs: seeded histories of AddElementaryStream/RemoveElementaryStream/SetPCRPID/WriteTables/WriteData/WritePacket (valid and invalid arguments, swarm-drawn weights, retransmit period 1..50) run on the real Muxer over a recording writer; after every call the bytes accepted so far are decoded by the reference TS/PSI decoder and compared with the MuxModel (DESIGN App. A). A run is non-trivial when it emitted at least one table pair and one unit; One quarter: bounded-exhaustive enumeration of all operation sequences over an 8-letter alphabet {add A, add auto, remove A, setpcr A, setpcr invalid, tables, data A, data A with RAI}, shortest first, periods 1 and 2 (complete up to length 3 in the quick tier, up to length 6 in the thorough tier; reach probes enum-len-N count them). distinct = distinct abstract fingerprints: the set of (previous op, op, outcome class) 3-grams of the history together with the reach probes hit.",
+		Rule:       "Three quarters of the runs: seeded histories of AddElementaryStream/RemoveElementaryStream/SetPCRPID/WriteTables/WriteData/WritePacket (valid and invalid arguments, swarm-drawn weights, retransmit period 1..50) run on the real Muxer over a recording writer; after every call the bytes accepted so far are decoded by the reference TS/PSI decoder and compared with the MuxModel (DESIGN App. A). A run is non-trivial when it emitted at least one table pair and one unit; One quarter: bounded-exhaustive enumeration of all operation sequences over an 8-letter alphabet {add A, add auto, remove A, setpcr A, setpcr invalid, tables, data A, data A with RAI}, shortest first, periods 1 and 2 (complete up to length 3 in the quick tier, up to length 6 in the thorough tier; reach probes enum-len-N count them). One run in 1 201 is an allocator churn (about 8 000 or 16 000 cycles of add-with-automatic-PID / WriteTables / remove, with streams kept or with an otherwise empty Muxer, the ends of the PID space in use). Histories include WriteData without payload bytes and WritePacket with PIDs above 13 bits (open arguments: only the packet rules are judged). A fifth of the seeded histories is run a second time with a writer that fails once: consecutive PMTs written by successful calls must differ in version_number when they differ in content. distinct = distinct abstract fingerprints: the set of (previous op, op, outcome class) 3-grams of the history together with the reach probes hit.",
 		Real:       []string{"astits.Muxer and everything below it (packet/PES/PSI/descriptor writers, astikit.BitsWriter)"},
-		Stub:       []string{"SimWriter (recording io.Writer, fault-free in this engine)", "refts reference TS/AF/PSI decoder", "MuxModel (stream list, PCR PID, retransmit counter, dirty flag, continuity tracking)"},
+		Stub:       []string{"SimWriter (recording io.Writer; fault-free except in the second pass of one history in five, where one Write call fails once)", "refts reference TS/AF/PSI decoder", "MuxModel (stream list, PCR PID, retransmit counter, dirty flag, continuity tracking)"},
 		FaultKinds: []string{"rejected:data-unknown-pid", "rejected:tables", "rejected:packet-oversize", "rejected:add-duplicate", "rejected:remove-absent", "rejected:data-tables-impossible"},
 		Assumptions: []string{
 			"reference decoder and MuxModel are written from ISO/IEC 13818-1; implementation constants (PMT PID, first counter and version values) are learned from the output, never assumed",
